@@ -7,6 +7,14 @@ import c07
 import recvprop
 
 
+def has_badlist(node):
+    if isinstance(node, dict):
+        return node.get("t") == "badlist" or any(has_badlist(v) for v in node.values())
+    if isinstance(node, list):
+        return any(has_badlist(v) for v in node)
+    return False
+
+
 def gen_cases(rng, tier):
     cases = []
     per = 30 if tier == "quick" else 80
@@ -40,6 +48,15 @@ def run(tier, seed, replay=None):
     if out is None:
         return R.finish()
     keep = out["keep"]
+    # the generator writes well-formed comma lists of meta items only: darling's own list parser (whose verdict the model takes
+    # as its input) must have read every one of them as a list
+    rejected = [c for c in keep if has_badlist(out["results"][c["id"]].get("echo"))]
+    for c in rejected[:3]:
+        r = out["results"][c["id"]]
+        R.violation("list-rejected", "the mistake-free input `%s` for %s is not parsed: darling's list parser rejects a well-formed comma list of "
+                    "meta items (%s)" % (c["src"], c["target"], json.dumps(r.get("err") or r.get("ok"))[:300]),
+                    {"case": {k: c[k] for k in ("target", "src", "entry", "pairs") if k in c}, "observation": {k: v for k, v in r.items() if k not in ("or", "pf", "sim")},
+                     "failed": "generator ground truth: the source is a well-formed list of meta items"})
     R.coverage.update({
         "evaluations": len(keep),
         "distinct_nontrivial": min(vlib.LAST_COUNT, len({(c["target"], c["src"]) for c in keep})),
